@@ -7,9 +7,9 @@ Tie        : three-way differential on generated inputs
                c2m   = harness/c09_pp.c driving /repo's c2mir.c in-process (token callback), cross-checked
                        against the text printed by the public entry (`c2m -E`) and by the c2m binary
              spec != gcc           -> model bug   (broken tie, no alarm on the code)
-             spec == gcc != c2m    -> violation; classified by the candidate repair that makes the
-                                      case pass (fixes/C09-*.patch applied to a scratch copy) or, for
-                                      plain `#if` expressions, by the Lean model's minimal repair set
+             spec == gcc != c2m    -> violation (shrunk, replay file written)
+           The 13 defects found with this check are repaired in /repo (known_findings.d/C09.json, all
+           `fixed`); their witnesses in corpus/C09 are must-pass regressions.
 """
 import json, os, re, shutil, subprocess, sys, time
 from concurrent.futures import ThreadPoolExecutor
@@ -38,92 +38,6 @@ for nm, exe in builds.items():
         ck.broken_ties.append({"kind": "harness-compile", "name": nm, "log": getattr(ck, "last_cc_log", "")[-1500:]})
 if HARNESS is None:
     ck.finish()
-
-SIGS = {  # signature -> (patch, Lean fix-mask bit or None)
-    "C09:if-not-unsigned": ("C09-if-not-unsigned.patch", 1),
-    "C09:if-compare-unsigned": ("C09-if-compare-unsigned.patch", 2),
-    "C09:if-shift-unsigned": ("C09-if-shift-unsigned.patch", 4),
-    "C09:if-cond-unsigned": ("C09-if-cond-unsigned.patch", 8),
-    "C09:if-literal-uint": ("C09-if-literal-uint.patch", 16),
-    "C09:if-wchar-unsigned": ("C09-if-wchar-unsigned.patch", 32),
-    "C09:stringify-sharp-pos": ("C09-stringify-sharp-pos.patch", None),
-    "C09:stringify-backslash-next-token": ("C09-stringify-backslash-next-token.patch", None),
-    "C09:paste-placemarkers": ("C09-paste-placemarkers.patch", None),
-    "C09:lexer-dot-dot": ("C09-lexer-dot-dot.patch", None),
-    "C09:noarg-call-newline": ("C09-noarg-call-newline.patch", None),
-    "C09:funlike-space-before-end": ("C09-funlike-space-before-end.patch", None),
-}
-COMBO = ["C09-if-all.patch", "C09-stringify-sharp-pos.patch", "C09-stringify-backslash-next-token.patch",
-         "C09-paste-placemarkers.patch", "C09-lexer-dot-dot.patch", "C09-noarg-call-newline.patch",
-         "C09-funlike-space-before-end.patch"]
-BIT2SIG = {b: s for s, (_, b) in SIGS.items() if b}
-
-_variant_cache = {}
-
-
-def apply_patch_text(text, patch_text):
-    """apply a unified diff by content: each hunk is reduced to its changed lines plus one line of
-    context on each side and must match exactly once (more tolerant of unrelated edits nearby than
-    patch(1), never applies at a wrong place)"""
-    hunks, cur = [], None
-    for l in patch_text.split("\n"):
-        if l.startswith("@@"):
-            cur = []
-            hunks.append(cur)
-        elif cur is not None and l[:1] in (" ", "-", "+"):
-            cur.append(l)
-    for h in hunks:
-        idx = [i for i, l in enumerate(h) if l[0] in "+-"]
-        if not idx:
-            continue
-        for before, after in ((1, 1), (2, 2), (3, 3), (1, 0), (2, 0), (3, 0), (0, 1), (0, 2), (0, 3)):
-            part = h[max(0, idx[0] - before):min(len(h), idx[-1] + 1 + after)]
-            old = "".join(l[1:] + "\n" for l in part if l[0] in " -")
-            new = "".join(l[1:] + "\n" for l in part if l[0] in " +")
-            if text.count(old) == 1:
-                text = text.replace(old, new)
-                break
-        else:
-            raise RuntimeError("a hunk does not match exactly once with any context width")
-    return text
-
-
-def patched_harness(patches):
-    """harness built from a scratch copy of c2mir.c with the given candidate repairs applied;
-    None if a patch does not apply (already merged, or the code around it changed)"""
-    key = tuple(sorted(patches))
-    if key in _variant_cache:
-        return _variant_cache[key]
-    pfiles = [os.path.join(VERIF, "fixes", p) for p in key]
-    tag = "all" if len(key) > 1 else key[0][len("C09-"):-len(".patch")]
-    d = os.path.join(CACHE, "c09-fix", tag)
-    src = os.path.join(d, "c2mir.c")
-    exe = None
-    try:
-        text = open(os.path.join(REPO, "c2mir/c2mir.c")).read()
-        for pf in pfiles:
-            try:
-                text = apply_patch_text(text, open(pf).read())
-            except RuntimeError as e:
-                raise RuntimeError(f"patch {os.path.basename(pf)} does not apply: {e}")
-        os.makedirs(d, exist_ok=True)
-        if not os.path.exists(src) or open(src).read() != text:
-            with open(src, "w") as f:
-                f.write(text)
-        exe = ck.cc("c09_ppfix_" + tag, ["harness/c09_pp.c", os.path.join(REPO, "mir.c")],
-                    HARNESS_FLAGS + [f'-DC09_C2MIR_C="{src}"', "-I" + os.path.join(REPO, "c2mir")],
-                    deps=pfiles + [src])
-    except Exception as e:  # noqa
-        ck.log("patched harness unavailable:", e)
-    _variant_cache[key] = exe
-    return exe
-
-
-def prebuild_variants():
-    keys = [[p] for p, _ in SIGS.values()] + [COMBO]
-    with ThreadPoolExecutor(8) as ex:
-        list(ex.map(patched_harness, keys))
-
 
 # ------------------------------------------------------------------ runners
 def run_gcc(src):
@@ -326,7 +240,6 @@ stats = {"cases": 0, "agree": 0, "gcc_rejects": 0, "spec_rejects_gcc_accepts": 0
          "c2m_ne": 0, "xchk_bad": 0, "too_big": 0}
 fam_stats = {}
 seen_canon = set()
-sig_examples = {}
 MAX_TOKS = 4000
 
 
@@ -417,20 +330,17 @@ def fails_now(case, exe=None):
     return bool(ci["err"]) or not G.toks_match(si["t"], ci["t"])
 
 
-def shrink(case, budget=150, keep_unlisted=True):
-    """greedy: drop lines, then tokens of text lines and replacement lists.  With keep_unlisted the
-    candidate must also keep failing when all listed candidate repairs are applied, so that shrinking
-    does not drift from an unlisted defect to a listed one."""
+def shrink(case, budget=150):
+    """greedy: drop lines, then tokens of text lines and replacement lists"""
     cur = [dict(l) for l in case]
     n = [0]
-    exe_all = patched_harness(COMBO) if keep_unlisted else None
 
     def ok(c):
         n[0] += 1
         if n[0] > budget:
             return False
         try:
-            return fails_now(c) and (exe_all is None or fails_now(c, exe_all))
+            return fails_now(c)
         except Exception:
             return False
 
@@ -487,79 +397,30 @@ def shrink(case, budget=150, keep_unlisted=True):
     return cur
 
 
-_prebuilt = []
-
-
-def passes(spec_t, r):
-    return (not r["err"]) and G.toks_match(spec_t, r["t"])
-
-
-def classify_token_fails(fails):
-    """which candidate repair makes each failing case pass?  -> list (per fail) of signature lists
-    (empty = not explained by the listed findings).  One batch run per patched harness."""
-    if not _prebuilt:
-        _prebuilt.append(1)
-        prebuild_variants()
-    srcs = [f["src"] for f in fails]
-    single = {}
-    for sig, (p, _) in SIGS.items():
-        exe = patched_harness([p])
-        single[sig] = run_harness(exe, srcs) if exe is not None else None
-    exe_all = patched_harness(COMBO)
-    allr = run_harness(exe_all, srcs) if exe_all is not None else None
-    out = []
-    for i, f in enumerate(fails):
-        sigs = [sig for sig, rs in single.items() if rs is not None and passes(f["spec"], rs[i])]
-        if sigs:
-            out.append(sigs[:1])
-        elif allr is not None and passes(f["spec"], allr[i]):
-            # several listed defects at once: name those whose repair changes the output
-            out.append([sig for sig, rs in single.items()
-                        if rs is not None and (rs[i]["t"] != f["c2m"] or rs[i]["err"] != f["c2m_err"])])
-        else:
-            out.append([])
-    return out
-
-
-n_reported = {"unlisted": 0}
+n_reported = {"token": 0, "expr": 0}
 
 
 def report_token_fails(fails):
-    if not fails:
-        return
-    for f, sigs in zip(fails, classify_token_fails(fails)):
-        if sigs:
-            for sg in sigs:
-                first = sg not in sig_examples
-                sig_examples.setdefault(sg, 0)
-                sig_examples[sg] += 1
-                if first:
-                    ck.violation({"stage": "tie", "theorem_or_correspondence": "c2m token sequence == C11 spec == gcc",
-                                  "input": {"kind": "case", "family": f["family"], "case": f["case"], "source": f["src"]},
-                                  "spec_verdict": "spec == gcc != c2m; passes with " + SIGS[sg][0],
-                                  "how_to_rerun": "cd /verif && ./check C09 --replay <this file>"},
-                                 what=f"c2m -E differs from C11/gcc ({sg})", signature=sg)
-        else:
-            n_reported["unlisted"] += 1
-            if n_reported["unlisted"] > 4:
-                continue
-            small = shrink(f["case"])
-            src = G.render_case(small)
-            gi, si = run_gcc(src), run_spec([small])[0]
-            ci = run_harness(HARNESS, [src])[0]
-            ck.violation({"stage": "tie", "theorem_or_correspondence": "c2m token sequence == C11 spec == gcc",
-                          "input": {"kind": "case", "family": f["family"], "case": small, "source": src},
-                          "model_output": si["t"], "gcc_output": gi["t"], "impl_output": ci["t"],
-                          "impl_errors": ci["err"],
-                          "spec_verdict": "C11 token sequence (spec, confirmed by gcc) differs from c2m's",
-                          "how_to_rerun": "cd /verif && ./check C09 --replay <this file>"},
-                         what="c2m's preprocessor output differs from the C11 token sequence (not a listed finding)",
-                         signature=None)
+    for f in fails:
+        n_reported["token"] += 1
+        if n_reported["token"] > 4:
+            continue
+        small = shrink(f["case"])
+        src = G.render_case(small)
+        gi, si = run_gcc(src), run_spec([small])[0]
+        ci = run_harness(HARNESS, [src])[0]
+        ck.violation({"stage": "tie", "theorem_or_correspondence": "c2m token sequence == C11 spec == gcc",
+                      "input": {"kind": "case", "family": f["family"], "case": small, "source": src},
+                      "model_output": si["t"], "gcc_output": gi["t"], "impl_output": ci["t"],
+                      "impl_errors": ci["err"],
+                      "spec_verdict": "C11 token sequence (spec, confirmed by gcc) differs from c2m's",
+                      "how_to_rerun": "cd /verif && ./check C09 --replay <this file>"},
+                     what="c2m's preprocessor output differs from the C11 token sequence", signature=None)
 
 
 # ------------------------------------------------------------------ #if expression grid (family D)
 ifstats = {"exprs": 0, "defined_value": 0, "undefined_skipped": 0, "divzero": 0, "parse_reject": 0,
-           "gcc_ne_spec": 0, "c2m_ne_c11": 0, "model_ne_c2m": 0, "by_class": {}}
+           "gcc_ne_spec": 0, "c2m_ne_c11": 0, "model_ne_c2m": 0}
 
 
 def expr_source(toks_list, base=0):
@@ -693,48 +554,38 @@ def shrink_expr(e, still_fails):
 
 def report_expr_fails(fails, trees=None):
     model_bad = [f for f in fails if f["kind"] == "model"]
-    if model_bad:
+    if model_bad and not any(b.get("name", "").startswith("c2mEval (literal model") for b in ck.broken_ties):
         # which repair set would explain the real evaluator?  (hint for `appliedFixes`)
         sample = model_bad[:200]
         hint = None
-        allf = [f["toks"] for f in fails if f["kind"] in ("model",)] + [f["toks"] for f in fails if f["kind"] == "violation"]
         for mask in range(64):
             rows = drv_expr([f["toks"] for f in sample], ("exprmask", str(mask)))
             if all(truth_of(r) == f["c2m"] for r, f in zip(rows, sample)):
                 hint = mask
                 break
-        if not any(b.get("name", "").startswith("c2mEval (literal model") for b in ck.broken_ties):
-            ck.broken_ties.append({"kind": "correspondence", "name": "c2mEval (literal model of eval) vs real c2m",
-                                   "first_diff": {"expr": " ".join(model_bad[0]["toks"]), "model": model_bad[0]["model"],
-                                                  "c2m_selects_true_group": model_bad[0]["c2m"]},
-                                   "hint": (f"the real evaluator behaves like c2mEvalG with (at least) fix mask {hint} "
-                                            f"(1 not, 2 compare, 4 shift, 8 cond, 16 literal, 32 wchar) on {len(sample)} "
-                                            f"disagreeing expressions: the `appliedFixes` definition in Model/PPExpr.lean "
-                                            f"no longer describes the checked tree (all six repairs applied => allFixes)"
-                                            if hint is not None else "no repair set explains the real evaluator")})
+        ck.broken_ties.append({"kind": "correspondence", "name": "c2mEval (literal model of eval) vs real c2m",
+                               "first_diff": {"expr": " ".join(model_bad[0]["toks"]), "model": model_bad[0]["model"],
+                                              "c2m_selects_true_group": model_bad[0]["c2m"]},
+                               "hint": (f"on {len(sample)} disagreeing expressions the real evaluator behaves like "
+                                        f"c2mEvalG with repair mask {hint} (1 not, 2 compare, 4 shift, 8 cond, 16 literal, "
+                                        f"32 wchar; 63 = the checked-in model): `appliedFixes` in Model/PPExpr.lean no "
+                                        f"longer describes the checked tree"
+                                        if hint is not None else "no repair set explains the real evaluator")})
     for f in fails:
         if f["kind"] != "violation":
             continue
+        n_reported["expr"] += 1
+        if n_reported["expr"] > 5:
+            continue
         src = expr_source([f["toks"]])
-        rep = {"stage": "tie", "theorem_or_correspondence": "eval_meets_c11 (selected #if group == C11 == gcc)",
-               "input": {"kind": "expr", "toks": f["toks"], "source": src},
-               "model_output": {"c11Eval": f["c11"], "c2mEval": f["model"]},
-               "impl_output": {"c2m_selects_true_group": f["c2m"]},
-               "spec_verdict": "gcc and c11Eval agree, c2m selects the other group",
-               "how_to_rerun": "cd /verif && ./check C09 --replay <this file>"}
-        if (f["model_predicts"] or f["model"] == "undef") and f["cls"] not in ("-", "0"):
-            # (model "undef": the mis-typed operand leads the C code into undefined behaviour, e.g. a shift
-            #  by >= 64 in an operand C11 does not evaluate; the repair set still identifies the cause)
-            mask = int(f["cls"])
-            for b, sg in BIT2SIG.items():
-                if mask & b:
-                    ifstats["by_class"][sg] = ifstats["by_class"].get(sg, 0) + 1
-                    ck.violation(rep, what=f"#if evaluated with the wrong signedness ({sg})", signature=sg)
-        else:
-            n_reported["unlisted"] += 1
-            if n_reported["unlisted"] <= 5:
-                ck.violation(rep, what="c2m selects a different #if group than C11/gcc and the literal model of "
-                                       "`eval` does not predict it", signature=None)
+        ck.violation({"stage": "tie", "theorem_or_correspondence": "eval_meets_c11 (selected #if group == C11 == gcc)",
+                      "input": {"kind": "expr", "toks": f["toks"], "source": src},
+                      "model_output": {"c11Eval": f["c11"], "c2mEval": f["model"]},
+                      "impl_output": {"c2m_selects_true_group": f["c2m"]},
+                      "spec_verdict": "gcc and c11Eval agree, c2m selects the other group"
+                                      + ("" if f["model_predicts"] else " (and the literal model of `eval` does not predict it)"),
+                      "how_to_rerun": "cd /verif && ./check C09 --replay <this file>"},
+                     what="c2m selects a different #if group than C11/gcc", signature=None)
 
 
 # ------------------------------------------------------------------ replay of one saved case
@@ -896,46 +747,30 @@ def strings_family():
     rc, out, err = run_limited([DRV, "strings"], "".join(G.hx(x) + "\n" for x in strs), timeout=120)
     hl = hout.strip("\n").split("\n")
     ml = out.strip("\n").split("\n")
-    st = {"strings": len(strs), "model_ne_code": 0, "roundtrip_fails": 0, "with_escape_pair": 0}
-    if len(hl) != 3 * len(strs) or len(ml) != 5 * len(strs):
+    st = {"strings": len(strs), "model_ne_code": 0, "roundtrip_fails": 0}
+    if len(hl) != 3 * len(strs) or len(ml) != 3 * len(strs):
         ck.broken_ties.append({"kind": "correspondence", "name": "stringify/destringify harness protocol",
                                "first_diff": (hout[:200], out[:200], herr[-200:])})
         return st
-    reported = False
-    unlisted = 0
     for i, x in enumerate(strs):
         hS, hD, hR = hl[3 * i:3 * i + 3]
-        mS, mD, mR, mF, mQ = ml[5 * i:5 * i + 5]
-        model_agrees = (hS, hD, hR) == (mS, mD, mR)
-        if (hS, hD, hR) == (mS, "D" + mF[1:], "R" + mQ[1:]):
-            st["code_follows_destringifyFixed"] = st.get("code_follows_destringifyFixed", 0) + 1
-            if not model_agrees:
-                continue     # repaired code: covered by `stringify_roundtrip_fixed`
-        if not model_agrees:
+        mS, mD, mR = ml[3 * i:3 * i + 3]
+        if (hS, hD, hR) != (mS, mD, mR):
             st["model_ne_code"] += 1
             if st["model_ne_code"] == 1:
                 ck.broken_ties.append({"kind": "correspondence", "name": "stringify/destringifyC (literal model) vs c2mir.c",
                                        "first_diff": {"s": x, "code": (hS, hD, hR), "model": (mS, mD, mR)}})
-        want = "D " + G.hx(x)
-        if hD == want:
+        if hD == "D " + G.hx(x):
             continue
         st["roundtrip_fails"] += 1
-        rep = {"stage": "tie", "theorem_or_correspondence": "stringify_roundtrip",
-               "input": {"kind": "string", "s": x},
-               "model_output": {"stringify": mS, "destringify(stringify)": mD},
-               "impl_output": {"stringify": hS, "destringify(stringify)": hD},
-               "spec_verdict": "destringify (stringify s) != s on the real static functions",
-               "how_to_rerun": "cd /verif && ./check C09 --tier quick"}
-        if model_agrees and mF == "F " + G.hx(x):
-            if not reported:
-                reported = True
-                ck.violation(rep, what="destringify does not invert stringify", signature="C09:destringify-escape-pairs")
-        elif mD == want or hS != mS:
-            # the literal model round-trips this string (or stringify itself differs): not the listed defect
-            unlisted += 1
-            if unlisted <= 2:
-                ck.violation(rep, what="destringify (stringify s) != s and the literal model of the two functions "
-                                       "does not predict it", signature=None)
+        if st["roundtrip_fails"] <= 2:
+            ck.violation({"stage": "tie", "theorem_or_correspondence": "stringify_roundtrip",
+                          "input": {"kind": "string", "s": x},
+                          "model_output": {"stringify": mS, "destringify(stringify)": mD},
+                          "impl_output": {"stringify": hS, "destringify(stringify)": hD},
+                          "spec_verdict": "destringify (stringify s) != s on the real static functions",
+                          "how_to_rerun": "cd /verif && ./check C09 --tier quick"},
+                         what="destringify does not invert stringify", signature=None)
     return st
 
 
@@ -976,8 +811,7 @@ ck.cov["rule"] = ("token cases: random macro-definition sets + invocation texts 
                   "the boundary grid; counted when C11 gives the expression a value")
 ck.cov["distribution"] = {"token_cases": stats, "families": fam_stats, "generator_features": gen_stats,
                           "if_grid": {k: v for k, v in ifstats.items()},
-                          "stringify_destringify": str_stats,
-                          "findings_seen": sig_examples}
+                          "stringify_destringify": str_stats}
 ck.cov["exhaustive"] = False
 ck.assumptions += [
     "gcc -E -P -std=c11 (gcc 12) is the reference for C11 6.10.1/6.10.3 on the generated domain; the Lean spec is "
